@@ -546,6 +546,16 @@ class Ctx:
         self.known_hit.append(what)
 
     def finish(self, level="proof", assumptions=None, extra_cov=None):
+        # shared developments this property's model rests on (scheduler-level machine, spin lock +
+        # sleep queue): their theorems are added to the obligations, their ties are run, and a
+        # failure is reported under this property
+        atts, self.attachments = getattr(self, "attachments", []), []
+        for a in atts:
+            try:
+                a(self)
+            except BuildError as e:
+                self.violation("build", "attached development does not build: " + str(e)[:800],
+                               {"theorem_or_correspondence": "build of an attached correspondence harness"}, found=False)
         cov = self.cov
         if extra_cov:
             cov.update(extra_cov)
